@@ -178,7 +178,7 @@ class Gen:
             if r.random() < 0.4:
                 new += " hlo=%d" % r.randrange(0, 3)
             if r.random() < 0.4:
-                new += " hhi=%s" % r.choice(["none", "1", "2"])
+                new += " hhi=%s" % r.choice(["none", "1", "2", "18446744073709551615", "18446744073709551614", "18446744073709551612", "9223372036854775808"])
             k = r.choice([0, 1, 2, 3, 5, 8, 12]) if not big else r.choice([30, 80, 150])
             for _ in range(k):
                 x = r.random()
